@@ -947,3 +947,93 @@ def setter_arg_crossing(ctx, rule, path_pat, floor):
             crossed = sorted(x for x in src if x != target)
             R.check(not crossed, rule, "%s:%s(self.%s)" % (fkey(b), nm, ",".join(sorted(src))), "%s forwards self.%s to %s()" % (short(b.path), target, nm), "%s passes self.%s to the setter `%s`: the setting `%s` is configured from another setting's value" % (short(b.path), "/".join(crossed), nm, target), where(c))
     R.floor(rule, n, floor, "settings forwarded through same-named setters")
+
+
+def config_call_signatures(F, tr, body, cfg_owner_substr="ServerConfig"):
+    """{callee: set of per-argument tuples of config field names the argument originates from} over body + closures"""
+    out = {}
+    for x in F.nested(body):
+        for c in x.calls:
+            per = []
+            for a in c.args:
+                lv = tr.origins(x, a)
+                fs = sorted({terminal_field(l)[1] for l in lv if l.kind == "field" and cfg_owner_substr in (terminal_field(l)[0] or "")})
+                per.append(tuple(fs))
+            if any(per):
+                out.setdefault(short(c.name() or "?"), set()).add(tuple(per))
+    return out
+
+
+def sibling_config_agreement(ctx, rule, siblings, floor):
+    """sibling entry points (the high-level server and the low-level `ws::connect` / `http::call_with_service_builder`
+    API) must configure the shared machinery from the *same* settings: for every callee that both siblings feed with
+    values originating from ServerConfig fields, the per-argument field provenance agrees. The rule needs no table of
+    'right' fields: whatever one sibling does, the other must do (Engler et al.: cross-checking implementations of one
+    interface)."""
+    F, R = ctx.F, ctx.R
+    tr = ctx.tracer(follow_callers=False, follow_fields=False)
+    sigs = []
+    for label, pat in siblings:
+        b = F.one(pat)
+        R.fn(b)
+        sigs.append((label, config_call_signatures(F, tr, b)))
+    n = 0
+    for i in range(len(sigs)):
+        for j in range(i + 1, len(sigs)):
+            (la, sa), (lb, sb) = sigs[i], sigs[j]
+            for callee in sorted(set(sa) & set(sb)):
+                n += 1
+                # every signature of the smaller side must occur on the other side
+                small, big = (sa[callee], sb[callee]) if len(sa[callee]) <= len(sb[callee]) else (sb[callee], sa[callee])
+                ok = small <= big
+                R.check(ok, rule, "%s~%s:%s" % (la, lb, callee), "%s and %s configure %s from the same settings %s" % (la, lb, callee, sorted(small)), "%s and %s feed %s from different settings: %s vs %s - one of the two entry points enforces another limit than the configured one" % (la, lb, callee, sorted(sa[callee]), sorted(sb[callee])), None)
+    R.floor(rule, n, floor, "callees configured by two sibling entry points")
+
+
+def param_call_signatures(F, tr, body):
+    """{callee or {Struct}: set of per-argument tuples of the body's own parameter indices the argument originates from},
+    over the body and the closures nested in it (captures are followed back to the enclosing function's parameters)"""
+    out = {}
+    for x in F.nested(body):
+        for c in x.calls:
+            per = []
+            for a in c.args:
+                lv = tr.origins(x, a)
+                per.append(tuple(sorted({l.detail["idx"] for l in lv if l.kind == "param" and l.detail["fn"] == body.path})))
+            if any(per):
+                out.setdefault(short(c.name() or "?"), set()).add(tuple(per))
+        for blk in x.blocks:
+            if blk.get("cleanup"):
+                continue
+            for st in blk["st"]:
+                if st["s"] == "assign" and st["rv"]["k"] == "agg" and st["rv"].get("ak") == "adt" and st["rv"]["adt"].startswith("jsonrpsee"):
+                    per = []
+                    for o in st["rv"]["ops"]:
+                        lv = tr.origins(x, o)
+                        per.append(tuple(sorted({l.detail["idx"] for l in lv if l.kind == "param" and l.detail["fn"] == body.path})))
+                    if any(per):
+                        out.setdefault("{%s}" % st["rv"]["adt"].split("::")[-1], set()).add(tuple(zip(st["rv"]["fields"], per)))
+    return out
+
+
+def sibling_param_agreement(ctx, rule, siblings, floor):
+    """sibling functions with the same parameter list (register_subscription / register_subscription_raw; the three
+    method registrars) hand their parameters on in the same way: for every callee / constructed struct that two siblings
+    share, each argument originates from the same parameter positions. A one-token mix-up in one sibling (the
+    notification name where the subscribe name belongs) is a disagreement with the other."""
+    F, R = ctx.F, ctx.R
+    tr = ctx.tracer(follow_callers=False, follow_fields=False)
+    sigs = []
+    for label, pat in siblings:
+        b = F.one(pat)
+        R.fn(b)
+        sigs.append((label, param_call_signatures(F, tr, b)))
+    n = 0
+    for i in range(len(sigs)):
+        for j in range(i + 1, len(sigs)):
+            (la, sa), (lb, sb) = sigs[i], sigs[j]
+            for callee in sorted(set(sa) & set(sb)):
+                n += 1
+                small, big = (sa[callee], sb[callee]) if len(sa[callee]) <= len(sb[callee]) else (sb[callee], sa[callee])
+                R.check(small <= big, rule, "%s~%s:%s" % (la, lb, callee), "%s and %s pass their parameters to %s alike" % (la, lb, callee), "%s and %s pass different parameters to %s: %s vs %s" % (la, lb, callee, sorted(sa[callee]), sorted(sb[callee])), None)
+    R.floor(rule, n, floor, "callees / structs shared by sibling functions")
